@@ -3,7 +3,7 @@
    script lists regenerated from ctrl/qryn/sql/*.sql). *)
 From Coq Require Import List String NArith ZArith Bool Arith.
 From Qryn Require Import model.Migrate model.MigrateRepair proofs.MigrateProofs proofs.MigrateClusterProofs proofs.MigrateConcProofs
-  proofs.MigrateClassProofs proofs.MigrateSoloProofs proofs.MigrateRepairProofs gen.GenScripts proofs.MigrateConcrete.
+  proofs.MigrateClassProofs proofs.MigrateSoloProofs proofs.MigrateRepairProofs proofs.MigrateBootProofs gen.GenScripts proofs.MigrateConcrete.
 Import ListNotations.
 Open Scope nat_scope.
 
@@ -239,3 +239,30 @@ Print Assumptions reread_script_after_own_read.
 Theorem reread_repair_insufficient : reread_closes_stale_start = true /\ reread_witness = true.
 Proof. exact reread_repair_examined. Qed.
 Print Assumptions reread_repair_insufficient.
+
+(* ---- the real entry point: ctrl.Init = InitDB (CREATE DATABASE IF NOT EXISTS, error dropped; SHOW CREATE DATABASE,
+   error = panic), then UpgradeAll -> upgradeDB (ttl_days check) -> Update.  For any statement semantics and scripts:
+   the Update parts of any sequence of starts through the bootstrap are a sequence of plain Update starts on the same
+   database, so the monitor accepts the whole log and no version is ever ahead. *)
+Theorem init_version_never_ahead :
+  forall (cat stmt : Type) (exec : stmt -> cat -> option cat) (pexec : list bool -> stmt -> cat -> cat)
+         (scripts : stream -> list stmt) (bc : bcfg) (runs : list (list outcome)) (c0 : cat) (e : bool),
+  exists m, mon_run mst0 (snd (init_multi cat stmt exec pexec scripts bc runs {| bd_exists := e; bd_db := db0 cat c0 |})) = Some m /\
+            forall k, m_rec m k <= d_vers (bd_db (fst (init_multi cat stmt exec pexec scripts bc runs {| bd_exists := e; bd_db := db0 cat c0 |}))) k /\
+                      d_vers (bd_db (fst (init_multi cat stmt exec pexec scripts bc runs {| bd_exists := e; bd_db := db0 cat c0 |}))) k <= m_app m k.
+Proof. exact init_never_ahead. Qed.
+Print Assumptions init_version_never_ahead.
+
+(* For the repository's scripts on 1 + n hosts: whatever happened in earlier starts of ctrl.Init (failures of the
+   bootstrap calls, panics, failures anywhere in Update, partially completed ON CLUSTER statements), the next
+   undisturbed start gets through the bootstrap, returns nil, every host ends in the schema of an uninterrupted
+   migration with every version recorded, and a further start (under any failures) runs no script. *)
+Theorem init_rerun_converges_scripts : forall (bc : bcfg) (n : nat) (runs : list (list outcome)), b_ttl0 bc = false ->
+  let d := fst (cl_init_multi bc runs {| bd_exists := false; bd_db := db0 (ccat cat) (hosts0 (S n)) |}) in
+  let r := ch_init gen_scripts gen_oncluster bc [] d in
+  br_ok r = true /\
+  d_cat (bd_db (br_db r)) = d_cat (expected_final gen_scripts gen_oncluster (b_cfg bc) (S n)) /\
+  (forall k, In k (streams_of (b_cfg bc)) -> d_vers (bd_db (br_db r)) k = List.length (gen_scripts k)) /\
+  (forall os, filter is_script_event (br_log (ch_init gen_scripts gen_oncluster bc os (br_db r))) = []).
+Proof. exact gen_init_converges. Qed.
+Print Assumptions init_rerun_converges_scripts.
